@@ -144,6 +144,22 @@ Definition cor_circular (h : T) : T :=
   if nltb O h one then two /! npi O *! (nacos O h -! h *! nsqrt O (one -! sq h)) else zero.
 Definition cor_tplsimple (nu h : T) : T := npow O (nmax (one -! nabs O h) zero) nu.
 
+(* ---------- covmodel/tools.py _init_subclass: correlation_from_cor (the wrapper every class with a cor gets),
+   covariance, variogram:  r = |r| ; cor(r / len_rescaled).  [p] is the one optional argument (alpha / nu), if any. *)
+Definition cor_elem (c : cls) (p h : T) : option T :=
+  match c with
+  | Gaussian => Some (cor_gaussian h) | Exponential => Some (cor_exponential h)
+  | Stable => Some (cor_stable p h) | Rational => Some (cor_rational p h)
+  | Cubic => Some (cor_cubic h) | Linear => Some (cor_linear h) | Circular => Some (cor_circular h)
+  | Spherical => Some (cor_spherical h) | TPLSimple => Some (cor_tplsimple p h)
+  | _ => None
+  end.
+Definition correlation_elem (c : cls) (p ell r : T) : option T := cor_elem c p (nabs O r /! ell).
+Definition covariance_elem (c : cls) (p ell var r : T) : option T :=
+  option_map (fun x => var *! x) (correlation_elem c p ell r).
+Definition variogram_elem (c : cls) (p ell var nugget r : T) : option T :=
+  option_map (fun x => var -! x +! nugget) (covariance_elem c p ell var r).
+
 (* ---------- analytic spectral densities; ell = len_rescaled, k = wave number (radius) *)
 Definition sqrtpi : T := nsqrt O (npi O).
 Definition half_dim (dim : Z) : T := ofZ dim /! two.
